@@ -206,10 +206,17 @@ class GrandCanonical(
 
     def save_state(self) -> None:
         """Save the current state of the context and update move labels."""
+        added = self.context._added_indices
+        start = 0
+
+        # one notification per inserted particle: a move labels the atoms it is told
+        # about as ONE new particle, and a composite move may have inserted several
+        for size in self.context._added_sizes[:-1]:
+            self.notify_moves("on_atoms_changed", added[start : start + size], [])
+            start += size
+
         self.notify_moves(
-            "on_atoms_changed",
-            self.context._added_indices,
-            self.context._deleted_indices,
+            "on_atoms_changed", added[start:], self.context._deleted_indices
         )
 
         super().save_state()
